@@ -51,10 +51,47 @@ func (ex *Exec) doCall(fr *Frame, common *ssa.CallCommon, pos token.Pos, site ss
 	fv := ex.val(fr, st, common.Value)
 	if fv.Clo != nil {
 		callee := fv.Clo.Fn.(*ssa.Function)
+		if len(fv.Clo.Bindings) == 0 {
+			callee = unthunk(callee) // a method expression: the method itself
+		}
 		ex.callByKey(fr, fnKeyOf(callee), callee, args, fv.Clo.Bindings, resT, pos, site, st, k)
 		return
 	}
 	ex.safetyCall(fr, st, site, "nilcall", common.Value, Ne(fv.L[0], Int(0)))
+	// a value that can only be one of the functions of a dispatch table (or a function taken by
+	// name): one path per candidate, plus the unknown-callback path for anything else
+	if sig, isSig := common.Value.Type().Underlying().(*types.Signature); isSig && !fv.L[0].IsInt() {
+		{
+			cands := ex.tableFunctions(common.Value.Type(), sig)
+			if len(cands) > 0 && len(cands) <= 16 {
+				none := tTrue
+				for _, f := range cands {
+					is := Eq(fv.L[0], ex.funcID(f))
+					none = And(none, Not(is))
+					st2 := st.clone()
+					st2.assume(is)
+					ex.callByKey(fr, fnKeyOf(f), f, args, nil, resT, pos, site, st2, k)
+				}
+				st.assume(none)
+				if fv.Tab {
+					// the value was looked up in the table itself: nil (key absent) is the only
+					// other possibility, and calling nil was ruled out above
+					st.assume(Eq(fv.L[0], Int(0)))
+					return
+				}
+			}
+		}
+	}
+	if fv.L[0].IsInt() {
+		// the address of a known function
+		for f, id := range funcIDs {
+			if fv.L[0].Int.IsInt64() && fv.L[0].Int.Int64() == int64(-1000000000-id) {
+				f = unthunk(f)
+				ex.callByKey(fr, fnKeyOf(f), f, args, nil, resT, pos, site, st, k)
+				return
+			}
+		}
+	}
 	// callback specification: by named function type, else by capture site
 	key := ""
 	if n, ok := common.Value.Type().(*types.Named); ok {
